@@ -5,7 +5,8 @@
 //! Cases  (name = Rust path of the enum type):
 //!   ( name N0 S<s> )        one string:  ( idx display [as_ref] debug_ok [ser] (idx display)x3 clone_eq )
 //!   ( name N1 S<a> S<b> )   a pair:      ( [eq] [cmp] [eq_sym] [cmp_rev] )
-//!   ( name N2 N<i> )        the string form of the i-th declared variant (empty payload)
+//!   ( name N2 N<i> )        the string form of the i-th declared variant (empty payload) and the
+//!                           position of the variant that string converts to
 //!   ( name N3 )             shape: number of variants, position of the fallback
 //! `idx` = position of the variant in declaration order (compared by `mem::discriminant`
 //! against the variants constructed in `gen_enums.rs`).
@@ -133,7 +134,12 @@ impl<T: EnumLike> Checker for Info<T> {
     }
     fn variant(&self, i: usize) -> Sx {
         match self.variants.get(i) {
-            Some(Some(v)) => Sx::ok(Sx::L(vec![Sx::s(&v.to_string())])),
+            Some(Some(v)) => {
+                // the variant's own spelling, and which variant that spelling converts to
+                let own = v.to_string();
+                let back = T::from(own.as_str());
+                Sx::ok(Sx::L(vec![Sx::s(&own), Sx::N(self.idx(&back))]))
+            }
             Some(None) => Sx::ok(Sx::L(vec![])),
             None => Sx::err(0),
         }
